@@ -44,7 +44,12 @@ def strip04(alg: int, b: bytes) -> bytes:
 
 def skr_matches(sc: S.Scenario, req: Any, bundles: list[Any]) -> list[str]:
     """The property text as a predicate on the implementation's output; returns the list of broken clauses."""
-    from kskm.common.dnssec import calculate_key_tag
+    import struct
+
+    def rfc_tag(k: Any) -> int:
+        # RFC 4034 appendix B over flags | protocol | algorithm | public key, transcribed (harness/keys.py) — NOT the repository's
+        # own calculate_key_tag: the tag the response carries is judged independently of the code under test
+        return K.rfc4034_key_tag(struct.pack("!HBB", k.flags, k.protocol, k.algorithm.value) + base64.b64decode(k.public_key))
 
     bad: list[str] = []
     if len(bundles) != len(req.bundles):
@@ -68,12 +73,17 @@ def skr_matches(sc: S.Scenario, req: Any, bundles: list[Any]) -> list[str]:
             got.add((k.key_identifier, k.flags, k.ttl, k.algorithm.value, pk))
             if k.protocol != 3:
                 bad.append(f"slot {i}: key {k.key_identifier} protocol {k.protocol}")
-            if calculate_key_tag(k) != k.key_tag:
-                bad.append(f"slot {i}: key {k.key_identifier} carries tag {k.key_tag}, not the tag of its own RDATA")
+            if rfc_tag(k) != k.key_tag:
+                bad.append(f"slot {i}: key {k.key_identifier} carries tag {k.key_tag}, not the RFC 4034 tag {rfc_tag(k)} of its own RDATA")
         if got != exp:
             bad.append(f"slot {i}: key set differs: missing {sorted((x[0], x[1], x[2]) for x in exp - got)} extra {sorted((x[0], x[1], x[2]) for x in got - exp)}")
         if len(rb.keys) != len(got):
             bad.append(f"slot {i}: duplicate key records")
+        by_id = {k.key_identifier: k for k in rb.keys}
+        for sg in rb.signatures:
+            pk_ = by_id.get(sg.key_identifier)
+            if pk_ is not None and sg.key_tag != rfc_tag(pk_):
+                bad.append(f"slot {i}: signature by {sg.key_identifier} names key tag {sg.key_tag}, the published key's RFC 4034 tag is {rfc_tag(pk_)}")
         want_signers = sorted({sc.ksks[n]["label"] for n in act["sign"]})
         got_signers = sorted(s.key_identifier for s in rb.signatures)
         if want_signers != got_signers:
